@@ -105,32 +105,33 @@ def unaryClash (op uop : Op) : Nat :=
   | .SUB, .SUB => 4
   | _, _ => 0
 
+/-- `has4 = has4 || h4` … `if maxProblem < mp { maxProblem = mp }`. -/
+def wbMerge (a b : WB) : WB :=
+  ⟨a.has4 || b.has4, a.has5 || b.has5, if a.maxProblem < b.maxProblem then b.maxProblem else a.maxProblem⟩
+
+/-- The `switch l := e.X.(type)` of `walkBinary`; `wx` is `walkBinary(l)`. -/
+def wbLeft (p : Nat) (w0 : WB) (x : XExpr) (wx : WB) : WB :=
+  match x with
+  | .binary lop _ _ => if prec lop < p then w0 else wbMerge w0 wx
+  | _ => w0
+
+/-- The `switch r := e.Y.(type)` of `walkBinary`; `wy` is `walkBinary(r)`. -/
+def wbRight (op : Op) (p : Nat) (w1 : WB) (y : XExpr) (wy : WB) : WB :=
+  match y with
+  | .binary rop _ _ => if prec rop ≤ p then w1 else wbMerge w1 wy
+  | .star _ => if op = .QUO then { w1 with maxProblem := 5 } else w1
+  | .unary uop _ =>
+    let c := unaryClash op uop
+    if c = 5 then { w1 with maxProblem := 5 }
+    else if c = 4 then (if w1.maxProblem < 4 then { w1 with maxProblem := 4 } else w1)
+    else w1
+  | _ => w1
+
 /-- `walkBinary` (argument: a binary node; other nodes give the zero value). -/
 def walkBinary : XExpr → WB
   | .binary op x y =>
     let p := prec op
-    let w0 : WB := ⟨p == 4, p == 5, 0⟩
-    let w1 : WB :=
-      match x with
-      | .binary lop _ _ =>
-        if prec lop < p then w0
-        else
-          let l := walkBinary x
-          ⟨w0.has4 || l.has4, w0.has5 || l.has5, if w0.maxProblem < l.maxProblem then l.maxProblem else w0.maxProblem⟩
-      | _ => w0
-    match y with
-    | .binary rop _ _ =>
-      if prec rop ≤ p then w1
-      else
-        let r := walkBinary y
-        ⟨w1.has4 || r.has4, w1.has5 || r.has5, if w1.maxProblem < r.maxProblem then r.maxProblem else w1.maxProblem⟩
-    | .star _ => if op = .QUO then { w1 with maxProblem := 5 } else w1
-    | .unary uop _ =>
-      let c := unaryClash op uop
-      if c = 5 then { w1 with maxProblem := 5 }
-      else if c = 4 then (if w1.maxProblem < 4 then { w1 with maxProblem := 4 } else w1)
-      else w1
-    | _ => w1
+    wbRight op p (wbLeft p ⟨p == 4, p == 5, 0⟩ x (walkBinary x)) y (walkBinary y)
   | _ => ⟨false, false, 0⟩
 
 /-- `cutoff`. -/
